@@ -22,6 +22,7 @@ import (
 	"sort"
 	"strings"
 	"sync"
+	"sync/atomic"
 	"time"
 	"unsafe"
 
@@ -138,7 +139,6 @@ type world struct {
 	overlaps   []string  // diagnoses: which request waited for which reply
 	stuck      []string  // nested requests that never finished
 	stackBuf   []byte
-	chainH     http.Handler
 	extraAttrs []Attrs  // attributes the chain built that are not in the case
 	extraKeys  []string // their spec keys
 
@@ -282,9 +282,16 @@ func (t *thread) describe() string {
 // sleeping on a timer or in a system call) — so a nested request that has not finished is waiting for its parent.
 func (w *world) quiescent() bool {
 	if w.stackBuf == nil {
-		w.stackBuf = make([]byte, 4<<20)
+		w.stackBuf = make([]byte, 1<<20)
 	}
 	n := goruntime.Stack(w.stackBuf, true)
+	for n >= len(w.stackBuf) { // never judge from a truncated dump
+		if len(w.stackBuf) >= 1<<30 {
+			return false
+		}
+		w.stackBuf = make([]byte, 4*len(w.stackBuf))
+		n = goruntime.Stack(w.stackBuf, true)
+	}
 	first := true
 	for _, line := range strings.Split(string(w.stackBuf[:n]), "\n") {
 		if !strings.HasPrefix(line, "goroutine ") {
@@ -405,10 +412,9 @@ func (w *world) inst(id int) *instRec {
 		return r
 	}
 	info := clusters.NewEmptyClusterInfo(w.instName(id), nil, nil, "", nil)
-	// the real Sync installs a catch-all dispatch policy (endpoints are not synced for a cluster without rest config)
-	_ = info.Sync(&proxyv1alpha1.UpstreamCluster{ObjectMeta: metav1.ObjectMeta{Name: info.Cluster},
-		Spec: proxyv1alpha1.UpstreamClusterSpec{DispatchPolicies: []proxyv1alpha1.DispatchPolicy{{Rules: []proxyv1alpha1.DispatchPolicyRule{{
-			Verbs: []string{"*"}, APIGroups: []string{"*"}, Resources: []string{"*"}, NonResourceURLs: []string{"*"}}}}}}})
+	// a catch-all dispatch policy, so that the real dispatcher finds a rule for every request
+	clusters.VerifC12SetDispatchPolicies(info, []proxyv1alpha1.DispatchPolicy{{Rules: []proxyv1alpha1.DispatchPolicyRule{{
+		Verbs: []string{"*"}, APIGroups: []string{"*"}, Resources: []string{"*"}, NonResourceURLs: []string{"*"}}}}})
 	r := &instRec{id: id, info: info, eps: map[string]*epRec{}}
 	w.insts[id] = r
 	w.byPtr[info] = id
@@ -1053,10 +1059,10 @@ func (w *world) doSar(m *Macro) {
 // recToken / recAuthz are what the SHIPPED chain gets as authenticator and authorizer: the real multi-cluster
 // authenticator / authorizer, observed, with the scheduled events of the current whole-chain request run at the stage
 // boundaries (before authentication, after it, after the impersonation check = before the dispatcher).
-type recToken struct{ w *world }
+type recToken struct{}
 
-func (t *recToken) AuthenticateToken(ctx context.Context, token string) (*authenticator.Response, bool, error) {
-	w := t.w
+func (recToken) AuthenticateToken(ctx context.Context, token string) (*authenticator.Response, bool, error) {
+	w := live()
 	p := w.topPipe()
 	if p == nil {
 		return nil, false, errors.New("harness: authenticator called outside a scheduled request")
@@ -1079,10 +1085,10 @@ func (t *recToken) AuthenticateToken(ctx context.Context, token string) (*authen
 	return resp, ok, err
 }
 
-type recAuthz struct{ w *world }
+type recAuthz struct{}
 
-func (a *recAuthz) Authorize(ctx context.Context, attrs authorizer.Attributes) (authorizer.Decision, string, error) {
-	w := a.w
+func (recAuthz) Authorize(ctx context.Context, attrs authorizer.Attributes) (authorizer.Decision, string, error) {
+	w := live()
 	p := w.topPipe()
 	if p == nil {
 		return authorizer.DecisionDeny, "", errors.New("harness: authorizer called outside a scheduled request")
@@ -1110,21 +1116,45 @@ func (w *world) upstreamOf(info *request.ExtraRequestInfo) int {
 	return -3
 }
 
-// chain: the handler chain the shipped buildProxyHandlerChainFunc builds for this world's manager, authenticator and
-// authorizer (configuration as in harness/e2e.GenericConfig; audit, CORS, goaway, tracing are the identity here).
+// The shipped chain is built ONCE per process (buildProxyHandlerChainFunc starts three meter goroutines that are never
+// stopped — a production gateway builds one chain): its cluster manager, authenticator and authorizer delegate to the
+// world that is running (histories run one after the other).
+var (
+	shippedOnce  sync.Once
+	shippedChain http.Handler
+	liveWorld    atomic.Value // *world
+)
+
+func live() *world { w, _ := liveWorld.Load().(*world); return w }
+
+type liveManager struct{}
+
+func (liveManager) Add(c *clusters.ClusterInfo)                   { live().mgr.Add(c) }
+func (liveManager) AddWithKey(k string, c *clusters.ClusterInfo)  { live().mgr.AddWithKey(k, c) }
+func (liveManager) Get(name string) (*clusters.ClusterInfo, bool) { return live().mgr.Get(name) }
+func (liveManager) Delete(name string)                            { live().mgr.Delete(name) }
+func (liveManager) DeleteWithStop(name string)                    { live().mgr.DeleteWithStop(name) }
+func (liveManager) DeleteAll()                                    { live().mgr.DeleteAll() }
+func (liveManager) ClientFor(name string) (*clusters.ClusterInfo, kubernetes.Interface, error) {
+	return live().mgr.ClientFor(name)
+}
+
+// chain: the handler chain the shipped buildProxyHandlerChainFunc builds (configuration as in harness/e2e.GenericConfig;
+// audit, CORS, goaway, tracing are the identity here).
 func (w *world) chain() http.Handler {
-	if w.chainH == nil {
+	liveWorld.Store(w)
+	shippedOnce.Do(func() {
 		c := &genericapiserver.Config{}
 		c.Serializer = scheme.Codecs
 		c.LongRunningFunc = func(*http.Request, *apirequest.RequestInfo) bool { return false }
 		c.RequestInfoResolver = &apirequest.RequestInfoFactory{APIPrefixes: sets.NewString("api", "apis"), GrouplessAPIPrefixes: sets.NewString("api")}
 		c.HandlerChainWaitGroup = new(utilwaitgroup.SafeWaitGroup)
-		c.Authentication.Authenticator = bearertoken.New(&recToken{w})
-		c.Authorization.Authorizer = &recAuthz{w}
+		c.Authentication.Authenticator = bearertoken.New(recToken{})
+		c.Authorization.Authorizer = recAuthz{}
 		notProxied := http.HandlerFunc(func(rw http.ResponseWriter, _ *http.Request) { rw.WriteHeader(http.StatusNotFound) })
-		w.chainH = gatewayapp.VerifC12BuildProxyHandlerChain(w.mgr, notProxied, c)
-	}
-	return w.chainH
+		shippedChain = gatewayapp.VerifC12BuildProxyHandlerChain(liveManager{}, notProxied, c)
+	})
+	return shippedChain
 }
 
 // doPipe: one request through the SHIPPED chain (cmd/kube-gateway/app/proxy.go buildProxyHandlerChainFunc, real dispatcher
